@@ -56,7 +56,8 @@ def run(ch, config, res):
         # match what the server decided whichever exchange led there
         sasl = [["PLAIN"], ["DIGEST-MD5"], ["LOGIN"], ["OAUTHBEARER"]][wl.weighted("sasl", [5, 2, 1, 1])]
         authz = "admin" if (sasl[0] in ("PLAIN", "DIGEST-MD5") and wl.flag("authz", 1, 3)) else ""
-    cfg = ServerConfig(version=version, max_scripts=3, max_script_size=120, max_total=260, sasl_pre=sasl)
+        use_tls = wl.flag("starttls", 1, 3)        # a third of the sessions run over STARTTLS
+    cfg = ServerConfig(version=version, max_scripts=3, max_script_size=120, max_total=260, sasl_pre=sasl, starttls=use_tls)
     world = World(ch, cfg, client_impl=config.get("client", "real"), read_size=rsz)
     srv = world.server
     srv.order_variation = True
@@ -102,7 +103,12 @@ def run(ch, config, res):
             if wl.flag("sasl_changes", 1, 3):
                 sasl[:] = [["PLAIN"], ["DIGEST-MD5"], ["LOGIN"], ["OAUTHBEARER"]][wl.int("sasl_now", 4)]
                 cfg.sasl_pre = sasl
-        o = world.call(client, "connect", "user", "password", authz_id=authz) if authz else world.call(client, "connect", "user", "password")
+        kw = {}
+        if authz:
+            kw["authz_id"] = authz
+        if use_tls:
+            kw["starttls"] = True
+        o = world.call(client, "connect", "user", "password", **kw)
         if not (o.kind == "ret" and o.value is True):
             fail("C15.connect", "%s: connect (SASL %s%s) against a conforming server %r" % (label, sasl[0], ", authz_id=%r" % authz if authz else "", o))
             return False
@@ -143,7 +149,7 @@ def run(ch, config, res):
                     # reconnect on the same object asking for a mechanism the server does not announce: must fail, and the
                     # object must then refuse script commands until it has really authenticated again
                     srv.fault_weights = [1, 0, 0, 0, 0, 0, 0, 0]
-                    if wl.flag("bad_by_starttls", 1, 2):
+                    if not use_tls and wl.flag("bad_by_starttls", 1, 2):
                         # ... or asking for STARTTLS, which this server does not offer: connect stops before AUTHENTICATE
                         o = world.call(client, "connect", "user", "password", starttls=True)
                         how = "starttls=True) although the server does not offer STARTTLS"
